@@ -15,7 +15,10 @@ EvData == {[x \in {"_", "k1"} |-> IF x = "_" THEN [k |-> "null"] ELSE v] : v \in
 Rx == {[t |-> a.t, c |-> a.c, t2 |-> "", opt |-> FALSE, sp |-> ""] : a \in Tok} \cup {[t |-> "", c |-> "l", t2 |-> "", opt |-> FALSE, sp |-> ""]} \cup {[t |-> "t1", c |-> "l", t2 |-> "t2", opt |-> FALSE, sp |-> ""]}
       \cup {[t |-> "t1", c |-> "l", t2 |-> "", opt |-> TRUE, sp |-> ""]}
       \cup {[t |-> "", c |-> "l", t2 |-> "", opt |-> FALSE, sp |-> "only"], [t |-> "t1", c |-> "l", t2 |-> "", opt |-> FALSE, sp |-> "trail"]}
-Rules == [rx : Rx, ic : BOOLEAN, hs : BOOLEAN, sk : {<<>>, <<"k2">>, <<"k9", "k1">>}]
+\* hs (select_keys given) and sk vary together, plus the two mixed cases (given but empty; not given) once each
+RxOne == [t |-> "t1", c |-> "l", t2 |-> "", opt |-> FALSE, sp |-> ""]
+Rules == [rx : Rx, ic : BOOLEAN, hs : {TRUE}, sk : {<<"k2">>, <<"k9", "k1">>}] \cup [rx : Rx, ic : BOOLEAN, hs : {FALSE}, sk : {<<>>}]
+         \cup [rx : {RxOne}, ic : {FALSE}, hs : {TRUE}, sk : {<<>>}] \cup [rx : {RxOne}, ic : {FALSE}, hs : {FALSE}, sk : {<<"k2">>}]
 Classes == [cls : Cats, rule : Rules]
 RECURSIVE SeqsUpTo(_, _)
 SeqsUpTo(S, n) == IF n = 0 THEN {<<>>} ELSE SeqsUpTo(S, n - 1) \cup {Append(q, x) : q \in {r \in SeqsUpTo(S, n - 1) : Len(r) = n - 1}, x \in S}
